@@ -140,11 +140,19 @@ def guard_set(atom, var):
     raise NotInterval(T.show(atom))
 
 
+def is_type_atom(a):
+    """isinstance(...) / not isinstance(...): says nothing about which
+    integer the variable is."""
+    if isinstance(a, Sym) and a.op == 'not':
+        a = a.args[0]
+    return isinstance(a, Sym) and a.op == 'isinstance'
+
+
 def path_set(atoms, var, ignore=lambda a: False):
     """Intersection of the guard sets of the atoms that mention var."""
     s = ISet.all()
     for a in atoms:
-        if ignore(a):
+        if ignore(a) or is_type_atom(a):
             continue
         if not T.mentions(a, lambda t: t is var):
             continue
